@@ -43,8 +43,8 @@ CHECKS = {
             "Bounded: DAGs <= 4 (5) nodes, digraphs <= 3 inner nodes, histories of 2 (3) queries over 5 addressed positions.", "CrossHair; z3; BFS oracle", "5/C17"),
     "C18": (EX, "CrossHair enumerates symbolic histories of model constructions/solves that share the caller's argument objects; models run concretely (NoTracing); after every step caller data is compared with its pre-image and the result with a fresh-copy baseline; solve()/getters called twice on one object for every class (concrete)",
             "Exploration: histories of length 2 (3) over 11 (9) class variants x 3 sharing patterns on one DAG and one cyclic instance; plus every mutable default argument.", "CrossHair path enumeration; repr-based deep equality", "5/C18"),
-    "C13": (MC, "CrossHair symbolic execution of the real search loops / abstract solve() over a symbolic outcome sequence (status per solver invocation, clock increments), plus injection of inconclusive statuses and of the wrapper's own SIGALRM time-out at every solver invocation of the real classes (HX shim), also into a second solve() of an already solved object; getters of never-solved / unsolvable models must raise",
-            "Bounded: <= 5 solver invocations, 5-status alphabet; 'Confirmed over all paths' per harness with reachability twin.", "CrossHair/z3; k-model stubs validated by injected runs on the real classes", "5/C13"),
+    "C13": (MC, "CrossHair symbolic execution of the real search loops / abstract solve() over a symbolic outcome sequence (status per solver invocation, clock increments), plus injection of inconclusive statuses and of the wrapper's own SIGALRM time-out at every solver invocation of the real classes (HX shim), also into a second solve() of an already solved object; MinGenSet and NumPathsOptimization solved twice on one object under two symbolic status sequences; getters of never-solved / unsolvable models must raise",
+            "Bounded: <= 5 solver invocations (3 + 3 for the two-run histories), 5-status alphabet; 'Confirmed over all paths' per harness with reachability twin.", "CrossHair/z3; k-model stubs validated by injected runs on the real classes", "5/C13"),
     "C14": (MC, "CrossHair symbolic execution of the real get_solution_walks/_reconstruct_eulerian_walk with a symbolic multiplicity per edge of enumerated universe graphs",
             "Bounded: universes <= 4 inner nodes, <= 10 edges, multiplicity <= 3; 'Confirmed over all paths' with reachability twin.", "CrossHair/z3", "5/C14"),
     "C19": (EX, "CrossHair on each constructor + solve with symbolic k, coverage, edge-weight codes, ignored-edge and corruption selectors; the documented-validity oracle is traced, the library call runs concretely per explored region",
